@@ -204,6 +204,9 @@ def parse_operand(s):
         return Operand("const", const=s[6:].strip())
     if s.startswith("no_retag "):
         return parse_operand(s[9:])
+    # a function item used as a value (`.map(PathBuf::from)`) is printed bare
+    if re.fullmatch(r"[\w:<>&'\[\] ,()]+", s) and "::" in s and not s.startswith("_"):
+        return Operand("const", const="fnitem " + s)
     raise MirError("unparsable operand: " + s)
 
 
@@ -215,6 +218,16 @@ UNOPS = {"Not", "Neg", "PtrMetadata"}
 
 def parse_rvalue(s):
     s = s.strip()
+    if s.startswith("{closure@") or s.startswith("{coroutine@"):
+        j = match_close(s, 0)
+        head, rest = s[:j + 1], s[j + 1:].strip()
+        ops, names = [], []
+        if rest.startswith("{"):
+            for part in split_top(rest[1:-1]):
+                k, v = part.split(":", 1)
+                names.append(k.strip())
+                ops.append(parse_operand(v))
+        return Rvalue("closure", ops, (head, names))
     if s.startswith(("copy ", "move ", "const ", "no_retag ")):
         # could be a cast: `copy _1 as u64 (IntToInt)`
         m = re.fullmatch(r"((?:copy|move|const) .*?) as (.+?) \((\w+(?:\([^)]*\))?)\)", s)
